@@ -271,7 +271,7 @@ func newExchClient(kind string, hooks bool, timeoutMs int, serialNil bool) *exch
 	}
 	timeout := time.Duration(timeoutMs) * time.Millisecond
 	switch kind {
-	case "tcp", "rtu", "tcpgen":
+	case "tcp", "rtu", "tcpgen", "gendef":
 		conf := modbus.ClientConfig{ReadTimeout: timeout, WriteTimeout: timeout,
 			DialContextFunc: func(ctx context.Context, address string) (net.Conn, error) {
 				switch ec.dialMode {
@@ -292,6 +292,9 @@ func newExchClient(kind string, hooks bool, timeoutMs int, serialNil bool) *exch
 			nc = modbus.NewTCPClientWithConfig(conf)
 		case "rtu":
 			nc = modbus.NewRTUClientWithConfig(conf)
+		case "gendef":
+			// the configurable client with nothing configured but the dial function: TCP is the library's default protocol
+			nc = modbus.NewClient(conf)
 		default:
 			// the configurable client with the TCP functions: the parser is wrapped so that "a reply is handed to
 			// the parser" becomes an observable event
@@ -337,7 +340,7 @@ func (ec *exchClient) run(c *exchCase, timeoutMs int) []Ev {
 	lg := &exchLog{}
 	a := c.Req
 	a.Framing = "tcp"
-	if c.Client != "tcp" && c.Client != "tcpgen" {
+	if c.Client != "tcp" && c.Client != "tcpgen" && c.Client != "gendef" {
 		a.Framing = "rtu"
 		a.Tid = 0
 	}
